@@ -75,6 +75,10 @@ def run(db, rep, tier):
     r9(db, rep)
     rep.rule("R10-hw-byte-loops", "every byte loop of HWAddress<6> (mask operators, broadcast fill) visits exactly positions 0..5", 4)
     r10(db, rep)
+    rep.rule("R11-post-increment", "the post-increment / post-decrement of the range iterators advances through the PRE-increment (or the successor "
+                                   "function) of the same object and returns the copy taken before: it does not call itself (an "
+                                   "unconditional self-call never returns), so `it++` loops over a range terminate like `++it` loops", 3)
+    r11(db, rep)
     rep.explanation = ("NARROW claim for C16: decides membership-as-ordering, operator consistency, hash/equality dependence, "
                        "the rejection discipline of the text parsers (incl. the exact accept set and digit values of the "
                        "hardware-address parser, by evaluating its character tests over all 256 byte values) and the bitwise shape "
@@ -772,6 +776,47 @@ def r9(db, rep):
             rep.violation("R9-hex-printer", key, facts.loc(f, loop), bad[which])
         else:
             rep.ok("R9-hex-printer", key, facts.loc(f, loop), "all 256 byte values print their %s digit; appended high nibble first" % which)
+
+
+def r11(db, rep):
+    n = 0
+    for fid, f in sorted(db.functions.items()):
+        rec = f.get("rec") or ""
+        if not rec.startswith("Tins::AddressRangeIterator<") or not f.get("body") or f.get("name") not in ("operator++", "operator--") or \
+                len(f.get("params", ())) != 1:
+            continue
+        n += 1
+        key = "%s::%s(int)" % (rec.replace("Tins::", "")[:60], f["name"])
+        g = cfg.FnCFG(f)
+        selfcalls, steps = [], []
+        for x in facts.fn_nodes(f):
+            if x["k"] in ("CXXOperatorCallExpr", "CXXMemberCallExpr") and x.get("callee"):
+                if x["callee"] == fid:
+                    selfcalls.append(x)
+                else:
+                    h = db.fn(x["callee"])
+                    if h is not None and h.get("rec") == rec and h.get("name") == f["name"] and not h.get("params"):
+                        steps.append(x)
+            if x["k"] == "CallExpr" and x.get("cname") in ("increment", "decrement"):
+                steps.append(x)
+        rets = [x for x in facts.fn_nodes(f) if x["k"] == "ReturnStmt" and x.get("c")]
+        copies = [x["var"] for x in facts.fn_nodes(f) if x["k"] == "VarDecl" and x.get("c") and
+                  any(y["k"] == "CXXThisExpr" for y in facts.walk(x["c"][0]))]
+        if selfcalls and any(g.reaches_exit_avoiding((g.entry, -1), [g.pos(x)], normal_only=True) is None for x in selfcalls):
+            rep.violation("R11-post-increment", key, facts.loc(f, selfcalls[0]),
+                          "%s(int) calls itself on every path (`(*this)%s` inside the post-%s): `it%s` recurses until the stack is "
+                          "exhausted, a loop stepping an address range that way never terminates"
+                          % (f["name"], f["name"][-2:], "increment" if "+" in f["name"] else "decrement", f["name"][-2:]))
+        elif not steps or any(g.reaches_exit_avoiding((g.entry, -1), [g.pos(x) for x in steps], normal_only=True) is not None for _ in (0,)):
+            rep.violation("R11-post-increment", key, facts.loc(f), "%s(int) does not step the iterator (through %s() / the successor function) on every path"
+                          % (f["name"], f["name"]))
+        elif not rets or not all(facts.strip_all(facts.inline_locals(f, r_["c"][0], all_types=False)).get("var") in copies or
+                                 any(y["k"] == "DeclRefExpr" and y.get("var") in copies for y in facts.walk(r_["c"][0])) for r_ in rets):
+            rep.violation("R11-post-increment", key, facts.loc(f), "%s(int) does not return the copy taken before the step" % f["name"])
+        else:
+            rep.ok("R11-post-increment", key, facts.loc(f), "copy, step through the pre-form, return the copy")
+    if n < 3:
+        rep.analysis_broken("only %d post-increment operators of AddressRangeIterator found (3 address types expected)" % n)
 
 
 def r10(db, rep):
